@@ -426,3 +426,17 @@ def check_sibling_parsers(ctx, prefix, names=("shape_from_header", "indices_from
                                                "indexes_and_shape_from_header", "shapes_from_header_vardims")):
     for n in names:
         check_parser(ctx, prefix, n)
+    # every decode of header bytes is strict and ASCII: a validator that decodes leniently (errors='replace' /
+    # 'ignore') accepts bytes at a recorded offset on which the reader's strict decode raises
+    import ast
+    from vk.model import norm, walk_no_nested, loc
+    for n in names:
+        fi = ctx.prog.func(UT, n, f"{prefix}.H-FAB")
+        lenient = [c for c in walk_no_nested(fi.node) if isinstance(c, ast.Call) and isinstance(c.func, ast.Attribute)
+                   and c.func.attr == "decode" and (len(c.args) > 1 or any(k.arg == "errors" for k in c.keywords))]
+        ctx.check(not lenient, f"{prefix}.H-FAB", fi.site,
+                  f"{n} decodes header bytes strictly (like its sibling parsers and the readers)",
+                  f"`{norm(lenient[0]) if lenient else ''}` decodes leniently: junk bytes in front of a FAB header are "
+                  f"accepted by this parser while the strict parsers used by the readers raise UnicodeDecodeError on the "
+                  f"same bytes — validation and reading disagree about the same offset", key=f"decode:{n}",
+                  where=loc(fi, lenient[0]) if lenient else None, semantic=True)
